@@ -309,7 +309,7 @@ def deserialize_address(address, encoding=None, network=None):
             prefix = address[:address.rfind('1')]
             networks = network_by_value('prefix_bech32', prefix)
             witness_type = 'segwit' if not witver else 'taproot'
-            if len(public_key_hash) == 20:
+            if len(public_key_hash) == 20 and not witver:
                 script_type = 'p2wpkh'
             else:
                 script_type = 'p2wsh' if not witver else 'p2tr'
